@@ -63,6 +63,17 @@ def interiorSubset : Itv → Itv → Bool
 
 def strictSubset (x y : Itv) : Bool := subset x y && x != y
 
+/-- in the interior of `y` and different from `y` (`(-oo,oo)` is not strictly in the interior of itself, nor the empty set of
+    the empty set) -/
+def strictInteriorSubset (x y : Itv) : Bool := interiorSubset x y && x != y
+
+/-- in the relative interior of `y`: a degenerate `y` is its own relative interior -/
+def relInteriorSubset (x y : Itv) : Bool :=
+  match x, y with
+  | empty, _ => true
+  | mk _ _, empty => false
+  | _, _ => (isDegenerated y && x == y) || interiorSubset x y
+
 def intersects : Itv → Itv → Bool
   | mk a b, mk c d => Ext.le a d && Ext.le c b
   | _, _ => false
